@@ -513,15 +513,16 @@ func defaultRedirectTrailingSlashHandler(c Context) {
 		code = http.StatusPermanentRedirect
 	}
 
-	var url string
-	if len(req.URL.RawPath) > 0 {
-		url = FixTrailingSlash(req.URL.RawPath)
-	} else {
-		url = FixTrailingSlash(req.URL.Path)
-	}
+	// The escaped form keeps reserved characters of the last segment ('?', '#', '%', ...) encoded in the Location.
+	url := FixTrailingSlash(req.URL.EscapedPath())
 
 	if url[len(url)-1] == '/' {
-		localRedirect(c.Writer(), req, path.Base(url)+"/", code)
+		base := path.Base(url)
+		if strings.Contains(base, ":") {
+			// A relative reference whose first segment contains a colon would be parsed as a scheme (RFC 3986 section 4.2).
+			base = "./" + base
+		}
+		localRedirect(c.Writer(), req, base+"/", code)
 		return
 	}
 	localRedirect(c.Writer(), req, "../"+path.Base(url), code)
